@@ -35,19 +35,44 @@ Section C02.
     reachable mr -> mstep fuel mr (HIte f g h) = Some (mr', x) -> reachable mr'.
   Proof. intros HR Hs. econstructor; eauto. Qed.
 
-  (* termination: over any node store whose `put` never fails (storage capacity permitting), apply_ite with fuel
-     3*n+3 returns, where n bounds the number of variable levels below the smallest top variable of the arguments;
-     the only other way the concrete model's step yields None is the crate's "Storage is full" stop. *)
-  Theorem C02_ite_terminates_partial (SO : StoreOps) (OK : StoreOK) :
-    (forall s nd, put s nd <> None) -> forall L n k, (3 * n + 3 <= k)%nat -> @Term SO L k n.
-  Proof. intros Hp L n k Hk. exact (@ite_terminates SO OK Hp L n k Hk). Qed.
+  (* termination, on the concrete machine (any hash functions, bucket count, cache sizes, capacity): for every reachable
+     state and every triple of live handles whose diagrams mention no variable above L, one apply_ite step with fuel
+     3 * (L + 2) + 3 (the recursion depth is bounded by the number of variable levels: at most two argument rewrites
+     precede each expansion, and expansion strictly raises the smallest top variable) yields no result ONLY IF the node
+     table filled up on the way -- the crate's "Storage is full" panic: there is an extension s' of the store, satisfying
+     the manager invariants, in which every cell 1 .. capacity-1 is occupied and the high-water mark is at the end. *)
+  Theorem C02_ite_terminates mr f g h rf rg rh tf tg th L fuel :
+    reachable mr -> liveh mr f rf -> liveh mr g rg -> liveh mr h rh ->
+    V (store mr) rf tf -> V (store mr) rg tg -> V (store mr) rh th ->
+    allle L tf -> allle L tg -> allle L th ->
+    (3 * N.to_nat (L + 1) + 3 <= fuel)%nat ->
+    mstep fuel mr (HIte f g h) = None ->
+    exists s', sext (store mr) s' /\ Inv s' /\ storage_full node (tbl s').
+  Proof. exact (ite_step_terminates nhash khash bmask cmask0 smask0 capacity cap_ok mr f g h rf rg rh tf tg th L fuel). Qed.
+  (* the same without trees: a fuel bound exists for every triple of live handles *)
+  Theorem C02_ite_fuel_bound mr f g h rf rg rh :
+    reachable mr -> liveh mr f rf -> liveh mr g rg -> liveh mr h rh ->
+    exists bound, forall fuel, (bound <= fuel)%nat -> mstep fuel mr (HIte f g h) = None ->
+      exists s', sext (store mr) s' /\ Inv s' /\ storage_full node (tbl s').
+  Proof. exact (ite_step_fuel_bound nhash khash bmask cmask0 smask0 capacity cap_ok mr f g h rf rg rh). Qed.
+  (* over any abstract node store: ITE with that fuel returns None only if some `put` failed at an extension of the store;
+     with a total `put` it always returns *)
+  Theorem C02_ite_terminates_abstract (SO : StoreOps) (OK : StoreOK) L n k : (3 * n + 3 <= k)%nat -> @Term SO L k n.
+  Proof. exact (@ite_terminates SO OK L n k). Qed.
+  Theorem C02_ite_terminates_total_store (SO : StoreOps) (OK : StoreOK) L n k :
+    (forall s nd, put s nd <> None) -> (3 * n + 3 <= k)%nat ->
+    forall s a b c ta tb tc, Inv s -> CInv s -> V s a ta -> V s b tb -> V s c tc ->
+      allle L ta -> allle L tb -> allle L tc -> (mu L ta tb tc <= n)%nat -> ite k s a b c <> None.
+  Proof. exact (@ite_terminates_total SO OK L n k). Qed.
   Theorem C02_only_storage_full_stops s nd :
-    cTInv nhash s -> cput_node nhash s nd = None ->
-    TableProto.put node node_eqb nhash (sfuel s) (tbl s) nd = Full.
-  Proof. exact (cput_none_full nhash s nd). Qed.
+    cTInv nhash s -> cput_node nhash s nd = None -> storage_full node (tbl s).
+  Proof. exact (cput_none_storage_full nhash s nd). Qed.
 End C02.
 
 Print Assumptions C02_ite_sound.
 Print Assumptions C02_ite_stays_reachable.
-Print Assumptions C02_ite_terminates_partial.
+Print Assumptions C02_ite_terminates.
+Print Assumptions C02_ite_fuel_bound.
+Print Assumptions C02_ite_terminates_abstract.
+Print Assumptions C02_ite_terminates_total_store.
 Print Assumptions C02_only_storage_full_stops.
